@@ -16,9 +16,10 @@
 #include <exception>           // for exception
 #include <unistd.h>	       // for optarg, optind
 #include <ctype.h>             // for isupper
+#include <errno.h>             // for errno
 #include <getopt.h>            // for option, getopt_long
 #include <limits.h>            // for SCHAR_MIN
-#include <string.h>            // for NULL, strlen, size_t
+#include <string.h>            // for NULL, strlen, size_t, strerror
 #include <iostream>            // for operator<<, basic_ostream, cerr, ostream
 #include <map>                 // for map
 #include <memory>              // for unique_ptr, make_unique
@@ -170,6 +171,27 @@ namespace
     return std::make_pair(ok, v);
   }
 
+  // finish() turns the result of a command into the program's exit
+  // status.  The command's output is buffered in std::cout, so it is
+  // only once that has been flushed that we know whether the output
+  // was written successfully; the exit status must not be 0 if it
+  // was not.
+  int finish(bool command_ok)
+  {
+    errno = 0;
+    std::cout.flush();
+    if (!std::cout.good())
+      {
+	const int saved_errno = errno;
+	std::cerr << "error: failed to write to standard output";
+	if (saved_errno)
+	  std::cerr << ": " << strerror(saved_errno);
+	std::cerr << "\n";
+	return 1;
+      }
+    return command_ok ? 0 : 1;
+  }
+
 std::unique_ptr<std::map<std::string, std::string>> option_help;
 
 std::unique_ptr<std::map<std::string, std::string>> make_option_help()
@@ -304,7 +326,7 @@ int main (int argc, char *argv[])
 	case OPT_HELP:
 	  {
 	    DFS::CommandHelp help;
-	    return help.invoke(storage, ctx, extra_args) ? 0 : 1;
+	    return finish(help.invoke(storage, ctx, extra_args));
 	  }
 	}
     }
@@ -330,7 +352,7 @@ int main (int argc, char *argv[])
 	{
 	  storage.show_drive_configuration(std::cerr);
 	}
-      return instance->invoke(storage, ctx, extra_args) ? 0 : 1;
+      return finish(instance->invoke(storage, ctx, extra_args));
     }
   catch (std::exception& e)
     {
